@@ -67,11 +67,11 @@ def vid(style, nm):
 
 
 # ------------------------------------------------------------------ case generation
-def gen_universe(rng, nv=6):
+def gen_universe(rng, nv=6, cards=None):
     style = rng.choice(["default", "default", "intperm", "str", "tuple", "mixed"])
     card, states = {}, {}
     for v in range(nv):
-        c = rng.choice([1, 2, 2, 3, 3, 4])
+        c = cards[v] if cards else rng.choice([1, 2, 2, 3, 3, 4])
         card[v] = c
         if style == "default":
             st = list(range(c))
@@ -146,6 +146,7 @@ def cases(tier, seed):
     rng = random.Random(seed)
     out = []
     npair, nperm, neq, nerr = (420, 40, 160, 60) if tier == "quick" else (4200, 400, 1600, 300)
+    nalign = 80 if tier == "quick" else 800
     for i in range(npair):
         U = gen_universe(rng)
         rel, fv, gv = gen_scopes(rng)
@@ -154,6 +155,24 @@ def cases(tier, seed):
              "f": gen_factor(rng, U, fv, neg), "g": gen_factor(rng, U, gv, neg, zeros=0.4), "neg": neg,
              "qseed": rng.randint(0, 10**9)}
         out.append(c)
+    # swap-loop stream: >=3 shared variables of pairwise unequal-looking cardinalities, second operand's variable
+    # order a non-trivial permutation of the first's (sum / divide / == alignment loop does real work)
+    for i in range(nalign):
+        cards = [2, 3, 4, 2, 3, 1]
+        rng.shuffle(cards)
+        U = gen_universe(rng, cards=cards)
+        k = rng.choice([3, 3, 4])
+        fv = rng.sample(range(6), k)
+        while len({U["card"][v] for v in fv}) < 2:
+            fv = rng.sample(range(6), k)
+        gv = list(fv)
+        while gv == fv:
+            rng.shuffle(gv)
+        if rng.random() < 0.4:
+            fv = fv + [v for v in range(6) if v not in fv][:1]      # nested: g's scope a permuted strict subset
+        out.append({"kind": "pair", "backend": "torch" if i % 5 == 4 else "numpy", "U": U, "rel": "align",
+                    "f": gen_factor(rng, U, fv), "g": gen_factor(rng, U, gv, zeros=0.4), "neg": False,
+                    "qseed": rng.randint(0, 10**9)})
     for i in range(nperm):
         U = gen_universe(rng)
         rel, fv, gv = gen_scopes(rng)
@@ -670,6 +689,10 @@ def run_pair(case, drv):
     b = run_folds(ctx, [F, G, H], rng)
     if b:
         return b
+    shared_f = [v for v in F["vars"] if v in G["vars"]]
+    shared_g = [v for v in G["vars"] if v in F["vars"]]
+    if (len(shared_f) >= 3 and shared_f != shared_g and len({U["card"][v] for v in shared_f}) >= 2):
+        ctx.tags.append("swap-loop: >=3 shared vars, non-trivial permutation, unequal cardinalities")
     if any(U["card"][v] == 1 for v in F["vars"] + G["vars"]):
         ctx.tags.append("card1")
     if not F["vars"] or not G["vars"]:
